@@ -61,7 +61,9 @@ var c16TripSRVTargets = []string{"srv1.example.net", "srv2.example.net", "matrix
 
 func c16GenValidName(t *rapid.T, label string) string {
 	k := rapid.IntRange(0, 99).Draw(t, label)
-	port := func() string { return ":" + rapid.SampledFrom([]string{"8448", "443", "4242", "1", "65535"}).Draw(t, "port") }
+	port := func() string {
+		return ":" + rapid.SampledFrom([]string{"8448", "443", "4242", "1", "65535"}).Draw(t, "port")
+	}
 	switch {
 	case k < 60:
 		return strings.TrimSuffix(c16GenHost(t), ".")
